@@ -175,6 +175,25 @@ func (x *Exec) chanSend(ch, v *Val, st *St, fr *Frame, p token.Pos) {
 		}
 	})
 	x.assertWF(st, "send#"+name, pos)
+	// "records G := e" on a channel protocol: ghost bookkeeping performed by every send (e.g. that an error was reported)
+	if len(cc.Records) > 0 {
+		x.wrapCfail("records of channel "+name, func() {
+			vals := make([]*Term, len(cc.Records))
+			for i, r := range cc.Records {
+				vals[i] = env.tr(r.Expr).T
+			}
+			for i, r := range cc.Records {
+				g := x.W.GhostVars[r.Var]
+				if g == nil || vals[i] == nil || vals[i].Sort != g.Sort {
+					cfail("records %s of channel %s: unknown ghost variable or wrong sort", r.Var, name)
+				}
+				x.checkWrite(st, g.Key, Null, p)
+				nw := x.fresh(g.Key, g.Sort)
+				x.assume(st, Eq(nw, vals[i]))
+				st.heap[g.Key] = nw
+			}
+		})
+	}
 	st.note("send on channel %s at %s", name, pos)
 }
 
